@@ -313,6 +313,9 @@ impl Prop for C14Typed {
     fn cases(&self, tier: Tier) -> u32 {
         tier.pick(64, 1_600)
     }
+    fn max_shrink_iters(&self) -> u32 {
+        200
+    }
     fn test(&self, c: &TypedCase, st: &mut Stats) -> TestResult {
         // the game is driven through the Game API up to the sampled position
         let (ps, ms) = gen::realize_walk(&c.walk);
@@ -469,10 +472,25 @@ impl Drop for Pvp {
 /// other special moves; found by reference-engine search (see tools in DESIGN.md).
 pub fn scripted_games() -> Vec<Vec<String>> {
     let text = std::fs::read_to_string("/verif/corpus/pvp_games.txt").unwrap_or_default();
-    text.lines()
+    let games: Vec<Vec<String>> = text
+        .lines()
         .filter(|l| !l.trim().is_empty() && !l.starts_with('#'))
         .map(|l| l.split_whitespace().map(|s| s.to_string()).collect())
-        .collect()
+        .collect();
+    // the corpus itself is validated by the reference rules: a broken corpus is inconclusive
+    for g in &games {
+        let mut pos = Pos::start();
+        for t in g {
+            match pos.legal_moves().into_iter().find(|m| notation::uci(m) == *t) {
+                Some(m) => pos = pos.make(&m),
+                None => {
+                    eprintln!("INCONCLUSIVE: corpus/pvp_games.txt: {} is not legal in {} (game {:?})", t, pos.fen(), g.join(" "));
+                    std::process::exit(2);
+                }
+            }
+        }
+    }
+    games
 }
 
 #[derive(Clone, Debug, Serialize, Deserialize)]
@@ -1024,7 +1042,7 @@ impl Prop for C17Board {
         (rep_seed(), rep_ops(90)).prop_map(|(fen, ops)| RepCase { fen, ops }).boxed()
     }
     fn cases(&self, tier: Tier) -> u32 {
-        tier.pick(4_000, 100_000)
+        tier.pick(20_000, 400_000)
     }
     fn test(&self, c: &RepCase, st: &mut Stats) -> TestResult {
         let mut seed = Pos::from_fen(&c.fen).map_err(Failure::new)?;
@@ -1180,7 +1198,7 @@ impl Prop for C17Game {
             .boxed()
     }
     fn cases(&self, tier: Tier) -> u32 {
-        tier.pick(320, 8_000)
+        tier.pick(640, 16_000)
     }
     fn test(&self, c: &RepCase, st: &mut Stats) -> TestResult {
         let mut cur = Pos::from_fen(&c.fen).map_err(Failure::new)?;
